@@ -463,7 +463,7 @@ def rule_L6(ctx):
     r.require_floor("stdout write sites", len(sites), 1)
     for f, p, loc in sites:
         r.inst("%s calls %s" % (f.path, p))
-        if f.module == "builtins::fns" and p == "std::io::_print":
+        if f.module.startswith("builtins") and p == "std::io::_print":
             r.ok()
         else:
             r.fail("%s | stdout-writer callee=%s" % (f.path, p),
